@@ -4,31 +4,12 @@
    Spv/Builder.v; Gen/SpvEnums.v: the constants of spirv.go) compared with the
    specification tables of Spv/Opcodes.v and Spv/Validate.v by vm_compute. *)
 From Coq Require Import List ZArith String Bool Ascii.
-Require Import Naga.Spv.Binary Naga.Spv.Opcodes Naga.Spv.Validate Naga.Spv.Builder.
+Require Import Naga.Spv.Binary Naga.Spv.Opcodes Naga.Spv.Validate Naga.Spv.Builder Naga.Spv.SpecNames.
 Require Import Naga.Gen.SpvBuild Naga.Gen.SpvEnums.
 Import ListNotations.
 Open Scope string_scope.
 Open Scope list_scope.
 Open Scope Z_scope.
-
-(* ---- the section (2.4) each slice of ModuleBuilder holds ---- *)
-Definition field_section (f : string) : option Z :=
-  if String.eqb f "capabilities" then Some 0
-  else if String.eqb f "extensions" then Some 1
-  else if String.eqb f "extInstImports" then Some 2
-  else if String.eqb f "memoryModel" then Some 3
-  else if String.eqb f "entryPoints" then Some 4
-  else if String.eqb f "executionModes" then Some 5
-  else if String.eqb f "debugStrings" then Some 6
-  else if String.eqb f "debugNames" then Some 7
-  else if String.eqb f "annotations" then Some 9
-  else if String.eqb f "types" then Some 10
-  else if String.eqb f "globalVars" then Some 10
-  else if String.eqb f "functions" then Some 11
-  else None.
-
-Definition opt_sections (l : list string) : option (list Z) :=
-  fold_right (fun f acc => match field_section f, acc with Some s, Some r => Some (s :: r) | _, _ => None end) (Some []) l.
 
 (* Build() writes known slices, in non-decreasing section order, and every slice that
    receives instructions is written *)
@@ -42,35 +23,6 @@ Definition build_order_ok : bool :=
 
 Lemma gen_build_order : build_order_ok = true.
 Proof. vm_compute. reflexivity. Qed.
-
-(* names used by naga that differ from the specification's *)
-Definition alias (n : string) : string :=
-  if String.eqb n "OpAtomicCompareExch" then "OpAtomicCompareExchange"
-  else if String.eqb n "OpSDotKHR" then "OpSDot"
-  else if String.eqb n "OpUDotKHR" then "OpUDot"
-  else if String.eqb n "GroupNonUniformShuffleRel" then "GroupNonUniformShuffleRelative"
-  else if String.eqb n "SubgroupLocalInvID" then "SubgroupLocalInvocationId"
-  else n.
-
-Definition lower_ascii (c : ascii) : ascii :=
-  let n := nat_of_ascii c in
-  if (Nat.leb 65 n && Nat.leb n 90)%bool then ascii_of_nat (n + 32) else c.
-Fixpoint lower (s : string) : string :=
-  match s with EmptyString => EmptyString | String c r => String (lower_ascii c) (lower r) end.
-Fixpoint lookup_ci (n : string) (l : list (string * Z)) : option Z :=
-  match l with
-  | [] => None
-  | (k, v) :: r => if String.eqb (lower n) (lower k) then Some v else lookup_ci n r
-  end.
-
-(* section of the instruction a method appends, by opcode name *)
-Definition opname_section (global_var : bool) (n : string) : option (option Z) :=
-  match lookup_ci (alias n) opcode_names with
-  | None => None
-  | Some code =>
-    if code =? 59 then Some (Some (if global_var then 10 else 11))
-    else Some (section_static {| opcode := code; operands := [] |})
-  end.
 
 (* every instruction appended to a section slice belongs to that slice's section *)
 Definition appends_ok : bool :=
@@ -131,53 +83,12 @@ Proof. vm_compute. reflexivity. Qed.
 
 (* ---- constants of spirv.go against the specification tables ---- *)
 
-Definition strip (prefix n : string) : string :=
-  if String.eqb (substring 0 (String.length prefix) n) prefix
-  then substring (String.length prefix) (String.length n - String.length prefix) n else n.
-
-Definition starts (prefix n : string) : bool := String.eqb (substring 0 (String.length prefix) n) prefix.
-
-(* the specification's value for a Go constant; None = name not in the tables *)
-Definition spec_value (ty name : string) : option Z :=
-  let look pre tbl := lookup_ci (alias (strip pre name)) tbl in
-  if String.eqb ty "OpCode" then lookup_ci (alias name) opcode_names
-  else if String.eqb ty "Capability" then look "Capability" capabilities
-  else if String.eqb ty "Decoration" then look "Decoration" decorations
-  else if String.eqb ty "BuiltIn" then look "BuiltIn" builtins
-  else if String.eqb ty "ExecutionModel" then look "ExecutionModel" execution_models
-  else if String.eqb ty "ExecutionMode" then look "ExecutionMode" execution_modes
-  else if String.eqb ty "StorageClass" then look "StorageClass" storage_classes
-  else if String.eqb ty "AddressingModel" then look "AddressingModel" addressing_models
-  else if String.eqb ty "MemoryModel" then look "MemoryModel" memory_models
-  else if String.eqb ty "FunctionControl" then look "FunctionControl" function_controls
-  else if String.eqb ty "SelectionControl" then look "SelectionControl" selection_controls
-  else if String.eqb ty "LoopControl" then look "LoopControl" loop_controls
-  else if String.eqb ty "ImageFormat" then look "ImageFormat" image_formats
-  else if starts "Scope" name then look "Scope" scopes
-  else if starts "MemorySemantics" name then look "MemorySemantics" memory_semantics
-  else if starts "GroupOperation" name then look "GroupOperation" group_operations
-  else if starts "GLSLstd450" name then look "GLSLstd450" glsl_std_450
-  else if String.eqb name "PackedVectorFormat4x8Bit" then Some 0
-  else if String.eqb name "MagicNumber" then Some 119734787
-  else None.
-
 (* every constant of spirv.go is a name of the specification *)
 Definition consts_known : bool :=
   forallb (fun c => match c with (ty, n, _) => match spec_value ty n with Some _ => true | None => false end end) go_consts.
 
 Lemma gen_consts_known : consts_known = true.
 Proof. vm_compute. reflexivity. Qed.
-
-(* constants whose value differs from the specification's: (type, name, naga value, spec value).
-   Computed, not asserted empty: each entry is reported by the check as a violation with its
-   own key (a wrong constant is a defect of naga, not of the proof). *)
-Definition const_mismatches (cs : list (string * string * Z)) : list (string * string * Z * Z) :=
-  flat_map (fun c => match c with
-                     | (ty, n, v) => match spec_value ty n with
-                                     | Some s => if s =? v then [] else [(ty, n, v, s)]
-                                     | None => []
-                                     end
-                     end) cs.
 
 (* all opcode, capability, decoration, builtin, execution model/mode, control and format
    constants agree; the only tolerated disagreements are storage classes (reported) *)
